@@ -159,6 +159,14 @@ func c13Jobs(quick bool) []c13Job {
 	h := func(f string) string {
 		return `"parser_settings":{"version":"omni.2.1","file_format_type":"` + f + `"}`
 	}
+	// a reader failure the caller can carry on after (old csv: a malformed row) between good rows, twice in a
+	// row, and as the last row: what the ingester released before the failure is released once
+	jobs = append(jobs,
+		c13Job{Name: "csv-malformed-rows-between-good-ones", Schema: `{` + h("csv") + `,"file_declaration":{"delimiter":",","data_row_index":1,"columns":[{"name":"A"},{"name":"B"},{"name":"C"}]},
+ "transform_declarations":{"FINAL_OUTPUT":{"object":{"a":{"xpath":"A"},"b":{"xpath":"B"},"c":{"xpath":"C"}}}}}`,
+			Input: "a1,b1,c1\na2,b2,c2\nx\"y,1,2\na3,b3,c3\na4,b4,c4\nx\"y,1,2\nx\"z,3,4\na5,b5,c5\na6,b6,c6\nq\"\n"},
+		c13Job{Name: "json-failing-records-between-good-ones", Schema: `{` + h("json") + `,"transform_declarations":{"FINAL_OUTPUT":{"xpath":"/*","object":{"n":{"xpath":"n","type":"int"},"s":{"xpath":"s"}}}}}`,
+			Input: `[{"n":"1","s":"a"},{"n":"x","s":"b"},{"n":"3","s":"c"},{"n":"y","s":"d"},{"n":"z","s":"e"},{"n":"6","s":"f"}]`})
 	jobs = append(jobs,
 		c13Job{Name: "xml-context-on-ancestor", Schema: `{` + h("xml") + `,"transform_declarations":{"FINAL_OUTPUT":{"xpath":"/r/g/o","object":{
   "self":{"custom_func":{"name":"javascript_with_context","args":[{"const":"JSON.parse(_node).v"}]}},
